@@ -59,6 +59,8 @@ def install(E):
             r = yield ('call', st.fn, a)
             return r
         h = getattr(st, 'poll', None) or POLLS.get(getattr(st, 'ty', None))
+        if h is None and getattr(st, 'ty', None) == 'AcceptFut' and getattr(E, 'accept_poll', None):
+            h = E.accept_poll
         if h is None:
             raise Unsupported(f'poll of {st!r}')
         return h(E, st, pin.fields[0], ctx)
@@ -145,6 +147,29 @@ def install(E):
         E.store(sref, sock.upd(out=sock.out + (d,)))
         E.events.append(('write', d))
         return ready(ok(UNIT))
+
+    # a single write(): the kernel may accept any non-empty prefix of the buffer
+    @reg(E, '<tokio::net::TcpStream as AsyncWriteExt>::write')
+    def write_once(E, a, ctx):
+        return Agg('WriteOnce', [a[0], a[1]])
+
+    @reg_re(E, r"^<tokio::io::util::write::Write<.*> as Future>::poll$")
+    def write_poll(E, a, ctx):
+        w = E.load(a[0].fields[0])
+        sref, data = w.fields
+        sock = E.load(sref)
+        d = E.load(data) if isinstance(data, Ref) else data
+        ln = blen(E, d)
+        n = E.fresh('written', 64)
+        E.assume(z3.UGE(n, 1), z3.ULE(n, ln))
+        if E.decide(n == ln):
+            E.store(sref, sock.upd(out=sock.out + (d,)))
+            E.events.append(('write', d))
+        else:
+            # only the first n bytes reach the peer
+            E.store(sref, sock.upd(out=sock.out + (Rope(as_parts(E, d) + [('cut', n)]),)))
+            E.events.append(('write', 'short', n))
+        return ready(ok(n))
 
     @reg(E, '<tokio::net::TcpStream as AsyncWriteExt>::shutdown')
     def shutdown(E, a, ctx):
